@@ -91,8 +91,8 @@ func main() {
 	env.addPkg("sourcemap", sm)
 	env.addPkg("lexer", lex)
 
+	writeIfChanged(filepath.Join(out, "Effects.v"), genEffects([]*pkgInfo{tok, lex, par, as, sm, comp, dbg}))
 	writeIfChanged(filepath.Join(out, "Tables.v"), genTables(env, tok, lex, par, as, sm))
 	writeIfChanged(filepath.Join(out, "Preds.v"), genPreds(env, lex))
 	writeIfChanged(filepath.Join(out, "Printer.v"), genPrinter(env, as))
-	writeIfChanged(filepath.Join(out, "Effects.v"), genEffects([]*pkgInfo{tok, lex, par, as, sm, comp, dbg}))
 }
